@@ -57,6 +57,7 @@ class Oracle:
         self.B = balls_per_game   # balls per game of the CURRENT game (as configured when that game started)
         self.B_next = balls_per_game   # what the configuration evaluates to now: the next game has to use it
         self.B_prev = None        # balls per game of the previous game on this machine
+        self.B_hist = []          # ... of all earlier games on this machine
         self.K = balls_known
         self.H = horizon
         self.viol = []
@@ -172,6 +173,7 @@ class Oracle:
         self.obs["games_started"] += 1
         if self.game_no > 1:
             self.B_prev = self.B
+            self.B_hist.append(self.B)
         self.B = self.B_next      # balls_per_game as evaluated at this game's start
         self.bpg_changed = self.B_prev is not None and self.B_prev != self.B
         if self.bpg_changed:
@@ -292,11 +294,13 @@ class Oracle:
                "is_extra_ball": self.k > 1}
         got = {k: kw.get(k) for k in exp}
         if got != exp:
-            if self.bpg_changed and self.cur_b is not None and got["balls_remaining"] == self.B_prev - self.cur_b and \
+            if self.cur_b is not None and isinstance(got["balls_remaining"], int) and \
+                    got["balls_remaining"] + self.cur_b in self.B_hist and \
                     all(got[k] == exp[k] for k in exp if k != "balls_remaining"):
+                # numbers are right for the balls_per_game of an earlier game on this machine
                 self.stale_bpg = True
             self.V("args", self._sig("C06:ball_event_wrong_numbers"), event=ev, got=got, expected=exp,
-                   balls_per_game=self.B, balls_per_game_previous_game=self.B_prev)
+                   balls_per_game=self.B, balls_per_game_earlier_games=list(self.B_hist))
 
     def _on_ball_will_start(self, kw, st):
         self.k += 1
